@@ -125,7 +125,18 @@ func sfHandlers0(f *ast.File, file string, names *[]string) ([][2]string, error)
 		return nil, fail("%s: (*Control).registerMsgHandlers not found", file)
 	}
 	var out [][2]string
+	localLits := map[string]bool{}
 	for _, st := range fd.Body.List {
+		// a local func literal (a wrapper applied to handlers below); what it does to the liveness clock is
+		// read by sfClock (gen_sessfacts_clock.go)
+		if as, ok := st.(*ast.AssignStmt); ok && len(as.Lhs) == 1 && len(as.Rhs) == 1 {
+			if id, ok := as.Lhs[0].(*ast.Ident); ok {
+				if _, ok := as.Rhs[0].(*ast.FuncLit); ok {
+					localLits[id.Name] = true
+					continue
+				}
+			}
+		}
 		es, ok := st.(*ast.ExprStmt)
 		if !ok {
 			return nil, fail("%s: registerMsgHandlers: statement is not a call", file)
@@ -156,6 +167,11 @@ func sfHandlers0(f *ast.File, file string, names *[]string) ([][2]string, error)
 		case *ast.SelectorExpr: // ctl.handleX
 			hname = sfHandlerName(h)
 		case *ast.CallExpr:
+			if id, isLocal := h.Fun.(*ast.Ident); isLocal && localLits[id.Name] && len(h.Args) == 1 {
+				// wrapped by a local func literal: the handler still runs where the wrapper is called
+				hname = sfHandlerName(h.Args[0])
+				break
+			}
 			if !sfSelIs(h.Fun, "msg", "AsyncHandler") || len(h.Args) != 1 {
 				return nil, fail("%s: registerMsgHandlers: handler of %s is wrapped by something unknown", file, ty.Sel.Name)
 			}
@@ -359,7 +375,21 @@ func genSessFacts(repo, out string) error {
 	fmt.Fprintf(&b, "def workerWaitsDone : Bool := %s\n", sfBool(workerWaits))
 	fmt.Fprintf(&b, "def snapshotInLoginFunc : Bool := %s\n", sfBool(inLit))
 	fmt.Fprintf(&b, "def snapshotAfterLogin : Bool := %s\n", sfBool(afterLogin))
-	fmt.Fprintf(&b, "def runUsesSnapshot : Bool := %s\n", sfBool(runUses))
+	fmt.Fprintf(&b, "def runUsesSnapshot : Bool := %s\n\n", sfBool(runUses))
+	// ---- which code refreshes the liveness clocks; the client's teardown path (gen_sessfacts_clock.go)
+	sci, err := sfClock(fset, repo, "server", "lastPing", "Ping")
+	if err != nil {
+		return err
+	}
+	cci, err := sfClock(fset, repo, "client", "lastPong", "Pong")
+	if err != nil {
+		return err
+	}
+	sfClockEmit(&b, "server", sci)
+	sfClockEmit(&b, "client", cci)
+	if err := sfTeardown(fset, repo, &b); err != nil {
+		return err
+	}
 	b.WriteString("\nend Frp.Gen.SessFacts\n")
 	return os.WriteFile(filepath.Join(out, "SessFacts.lean"), []byte(b.String()), 0o644)
 }
